@@ -394,17 +394,34 @@ def c10_monitor(ctx, tr, ix):
     n = 0
     start_qty = {}      # (id) -> quantity at start of day (stocks)
     sold_today = collections.Counter()
+    opened_today, closed_as_today = collections.Counter(), collections.Counter()
     cur_day = None
     for kind, e, acc, when in iter_obs(tr):
         if when is not None and when.date() != cur_day:
             cur_day = when.date()
             sold_today.clear()
+            opened_today.clear()
+            closed_as_today.clear()
             start_qty = {}
             if acc and acc.get("STOCK"):
                 pass
         if kind == "POST_BEFORE_TRADING" and acc and acc.get("STOCK"):
             start_qty = {h["id"]: h["long"]["qty"] for h in acc["STOCK"]["holdings"]}
             sold_today.clear()
+        if kind == "TRADE" and e["trade"]["book"] in ix.fut and e["order"] is not None and val_on["FUTURE"]:
+            # futures: what is closed as "today's" within a day never exceeds what was opened that day on that leg
+            t = e["trade"]
+            leg = (t["book"], "long" if (t["side"] == "BUY") == (t["effect"] == "OPEN") else "short")
+            if t["effect"] == "OPEN":
+                opened_today[leg] += t["qty"]
+            else:
+                closed_as_today[leg] += t["close_today"] if t["effect"] == "CLOSE" else t["qty"]
+                if closed_as_today[leg] > opened_today[leg] and ix.fut[t["book"]].get("under") not in ("IF",):
+                    sigc = {"kind": "closed_today_beyond_opened_today"}
+                    if any(c_["api"] == "plan_future_generic_close" and c_["args"][0] == leg[0] and c_["when"] <= when for c_ in tr.calls):
+                        sigc.update(account="FUTURE", generic_close_and_close_today_resting=True)       # the scenario of finding F12
+                    ctx.witness("C10.3", sigc, "%s: %s %s: %s lots closed as today's so far, %s opened today" % (when, leg[0], leg[1], closed_as_today[leg], opened_today[leg]), rp)
+                    closed_as_today[leg] = opened_today[leg]
         if kind == "TRADE":
             t = e["trade"]
             if t["book"] in ix.stock and t["side"] == "SELL" and e["order"] is not None:
